@@ -58,7 +58,7 @@ CHECKS.update({
             "the runs repeat every history alone on a fresh filesystem and require identical observations; injected skip failures may end the "
             "archive early once, nothing else; extraction meets failing system calls and objects in the way (success is demanded only when the "
             "filesystem refused nothing); the input may end or fail at an arbitrary offset (reference = what the archive yields up to there); "
-            "readers may open their archive by name (the library's own FILE and buffer), several at a time.",
+            "readers may open their archive by name (the library's own FILE and buffer), several at a time; one plan in six carries a whole second archive behind the end marker (the end is final whatever was extracted before).",
             "Trusted: H/B/V of the model come from the same library's canonical traversal; SimFS semantics (validated against the kernel); "
             "state shared only inside seam-free stretches is not reachable by the baton schedule.",
             "DESIGN.md 7 C15, appendix D"),
